@@ -60,7 +60,12 @@ func scenarioC09(r *Run) {
 	// per-QFI burst configuration
 	cfgs := map[uint8]qciCfg{}
 	draw := func() qciCfg {
-		return qciCfg{cbs: uint32(1000 * (1 + r.Ch.Choose(100, "cbs"))), pbs: uint32(1000 * (1 + r.Ch.Choose(100, "pbs"))), ebs: uint32(1000 * (1 + r.Ch.Choose(100, "ebs"))), durMs: uint32(1 + r.Ch.Choose(50, "dur"))}
+		c := qciCfg{cbs: uint32(1000 * (1 + r.Ch.Choose(100, "cbs"))), pbs: uint32(1000 * (1 + r.Ch.Choose(100, "pbs"))), ebs: uint32(1000 * (1 + r.Ch.Choose(100, "ebs"))), durMs: uint32(1 + r.Ch.Choose(50, "dur"))}
+		if r.Ch.Choose(8, "long-burst-duration") == 1 {
+			// minutes instead of milliseconds: rate x duration no longer fits 64 bits for the top rates
+			c.durMs = uint32(100000 + r.Ch.Choose(400000, "dur-long"))
+		}
+		return c
 	}
 	def := qciCfg{cbs: 32 * 1514, pbs: 32 * 1514, ebs: 32 * 1514, durMs: 10} // shipped default when qci 0 is not configured (README / sample config)
 	if r.Ch.Choose(2, "defcfg") == 1 {
@@ -169,7 +174,12 @@ func scenarioC09(r *Run) {
 		s := g.Session(p, SessShape{NQER: nq, ExtraPDRs: r.Ch.Choose(2, "ex")})
 		shape := fmt.Sprintf("q%d", nq)
 		// list shapes
-		switch r.Ch.Choose(6, "listshape") {
+		switch r.Ch.Choose(7, "listshape") {
+		case 6: // the first PDR pair references no QER at all (signalling flow), the others share theirs
+			if nq >= 2 && len(s.PDRs) >= 4 {
+				s.PDRs[0].QERIDs, s.PDRs[1].QERIDs = nil, nil
+				shape += "-first-pair-without-qer"
+			}
 		case 5: // one QER of its own per PDR pair + one QER shared by all (last in every list)
 			if nq >= 2 {
 				shared := s.QERs[nq-1]
